@@ -23,6 +23,13 @@ Fixpoint pre (n : nat) (s : string) : string :=
   | _, _ => EmptyString
   end.
 
+(* canonical stand-in for the k-th generated UUID (k < 256) in the exhaustive enumeration: two hex
+   digits of k, then thirty zeros *)
+Definition hexdigit (n : nat) : ascii :=
+  ascii_of_nat (if Nat.ltb n 10 then 48 + n else 87 + n).
+Definition cu (k : nat) : string :=
+  String (hexdigit (Nat.div k 16)) (String (hexdigit (Nat.modulo k 16)) "000000000000000000000000000000").
+
 Inductive oresp := ODone | OFail | OCrash.
 Definition oresp_eqb (a b : oresp) : bool :=
   match a, b with ODone, ODone | OFail, OFail | OCrash, OCrash => true | _, _ => false end.
